@@ -448,6 +448,54 @@ def rule_r7(ctx) -> RuleResult:
     return rr
 
 
+def rule_r9(ctx) -> RuleResult:
+    """parse() yields the protected text as plain text wherever the <nowiki> stands: when the parser
+    meets an N cookie it hands the quoted text to text_fn with beginning-of-line processing already
+    switched off for the cookie (`ctx.beginning_of_line = False` dominates the emission) -- otherwise
+    content that starts with a blank, `*`, `#`, `:` ... at the start of a line opens a preformatted
+    block or a list."""
+    rr = RuleResult("C15.R9", "the parser emits nowiki text with beginning-of-line processing off", min_instances=1)
+    fn = ctx.fn("parser.magic_fn")
+
+    class W(Flow):
+        def __init__(self):
+            self.sites = []
+
+        def transfer(self, st, state):
+            if isinstance(st, ast.Assign) and any(unparse(t) == "ctx.beginning_of_line" for t in st.targets):
+                state = isinstance(st.value, ast.Constant) and st.value.value is False
+            return self.transfer_expr(st, state)
+
+        def transfer_expr(self, node, state):
+            if node is not None:
+                for c in ast.walk(node):
+                    if isinstance(c, ast.Call) and any(isinstance(x, ast.Call) and unparse(x.func) == "nowiki_quote" for x in ast.walk(c)) \
+                            and unparse(c.func) in ("text_fn", "process_text"):
+                        self.sites.append((c, state))
+                    elif isinstance(c, ast.Call) and unparse(c.func) == "text_fn" and c.args and len(c.args) > 1 and isinstance(c.args[1], ast.Name) \
+                            and c.args[1].id in quoted:
+                        self.sites.append((c, state))
+            return [state]
+
+    quoted = {n.targets[0].id for n in walk_no_nested(fn) if isinstance(n, ast.Assign) and len(n.targets) == 1 and isinstance(n.targets[0], ast.Name)
+              and isinstance(n.value, ast.Call) and unparse(n.value.func) == "nowiki_quote"}
+    w = W()
+    w.run_function(fn, [False])
+    if not w.sites:
+        raise AnalysisError("magic_fn: emission of the quoted nowiki text not found")
+    by = {}
+    for c, st_ in w.sites:
+        by.setdefault(c, []).append(st_)
+    for c, sts in by.items():
+        if all(sts):
+            rr.ok("parser.magic_fn", unparse(c)[:50] + " after beginning_of_line = False", {"site": unparse(c)[:50]})
+        else:
+            rr.bad(Finding("C15.R9", "src/wikitextprocessor/parser.py", "parser.magic_fn", unparse(c)[:60],
+                           "the protected text is handed to text_fn while beginning-of-line processing is still on: `<nowiki> x</nowiki>` at the "
+                           "start of a line becomes a PREFORMATTED block (and pulls the rest of the line into it)", c.lineno))
+    return rr
+
+
 def rule_r8(ctx) -> RuleResult:
     from ..core.report import shared
     from . import c10
@@ -457,4 +505,4 @@ def rule_r8(ctx) -> RuleResult:
 
 
 def run(ctx) -> list:
-    return [rule_r1(ctx), rule_r2(ctx), rule_r3(ctx), rule_r4(ctx), rule_r5(ctx), rule_r6(ctx), rule_r7(ctx), rule_r8(ctx)]
+    return [rule_r1(ctx), rule_r2(ctx), rule_r3(ctx), rule_r4(ctx), rule_r5(ctx), rule_r6(ctx), rule_r7(ctx), rule_r8(ctx), rule_r9(ctx)]
